@@ -184,7 +184,9 @@ let rec run_obj_op (ctx : ctx) (pp : ppacket) (f : string array) : string =
      | "g" -> run_obj_op ctx pp [| "fg" |]
      | "W" -> run_obj_op ctx pp [| "W"; g.(1); "0"; (if Array.length g > 2 then facade_plan g.(2) else "*") |]
      | "b" ->
-       if Array.length g > 1 && int_of_string g.(1) < List.length pp.pp_packet then "b=TOOBIG" else "b=" ^ hex pp.pp_packet
+       (* the capacity a hook states; the shipped header's buffer (DNS_MAX_PACKET_SIZE = 8192) when the script gives none *)
+       let cap = if Array.length g > 1 then int_of_string g.(1) else 8192 in
+       if cap < List.length pp.pp_packet then "b=TOOBIG" else "b=" ^ hex pp.pp_packet
      | "Z" -> on_res (raw_name_from_str (unhex g.(1)) None) (fun v -> "OK:" ^ hex v)
      | _ -> run_obj_op ctx pp g)
   | "fg" ->
